@@ -10,7 +10,7 @@ RTOBJ = os.path.join(BUILD, "rt.o")
 NPROC = int(os.environ.get("VERIF_JOBS", "16"))
 
 CFLAGS = ["-O1", "-ffp-contract=off", "-fno-vectorize", "-fno-slp-vectorize", "-fno-unroll-loops", "-fno-builtin",
-          "-gline-tables-only", "-DNDEBUG", "-DPRNTlevel=0", "-DDEBUGlevel=0", "-Wno-everything"]
+          "-gline-tables-only", "-DNDEBUG", "-DPRNTlevel=0", "-DDEBUGlevel=0", "-Wno-everything", "-DXIAOYELI_SUPERLU_VERIF"]   # the guard enables the repo's verification hooks (MANIFEST.hooks)
 
 
 def run(cmd, **kw):
@@ -122,7 +122,7 @@ class Build:
     def build_native(self, harness_c, name, defs=()):
         """uninstrumented native build of the same sources + harness (replay / translator validation)."""
         flags = ["-O0", "-ffp-contract=off", "-DNDEBUG", "-DPRNTlevel=0", "-DDEBUGlevel=0", "-Wno-everything", "-I" + REPO + "/SRC", "-I" + VERIF + "/harness/compat", "-I" + VERIF + "/slusym",
-                 "-I" + VERIF + "/harness/e2", "-DPREC_" + self.prec.upper(), "-DSLUSYM_NATIVE"] + list(defs) + self.extra_defs
+                 "-I" + VERIF + "/harness/e2", "-DPREC_" + self.prec.upper(), "-DSLUSYM_NATIVE", "-DXIAOYELI_SUPERLU_VERIF"] + list(defs) + self.extra_defs
         if self.vendor: flags.append("-DUSE_VENDOR_BLAS")
         if self.idx64: flags.append("-DXSDK_INDEX_SIZE=64")
         objs = []
